@@ -4,6 +4,7 @@ CONSTANTS
   Depth = 2
   Width = 2
   Rich = FALSE
+  TruncAll = TRUE
   MaxChunks = 1
   ChunkLens = {0}
 INVARIANTS RoundTrip TruncFails LoadInBounds
